@@ -26,7 +26,7 @@ func (ex *Exec) fp(st *State, sl SliceV) *Term {
 // of X; X followed by Y has fpcat(fp X, fp Y)), so that equal byte strings that
 // were assembled in the same way get syntactically equal fingerprints.
 func canonFP(arr, off, n *Term, depth int) *Term {
-	DeclareFun("fp", []string{SByteArr, SBV(64), SBV(64)}, SFP)
+	DeclareFun("fpr", []string{SByteArr, SBV(64), SBV(64)}, SFP)
 	DeclareFun("fpcat", []string{SFP, SFP}, SFP)
 	if n.lit && n.val.Sign() == 0 {
 		return BV(0, 256) // the empty string
@@ -49,7 +49,7 @@ func canonFP(arr, off, n *Term, depth int) *Term {
 			return canonFP(dst, off, n, depth+1)
 		}
 	}
-	return App("fp", SFP, arr, off, n)
+	return App("fpr", SFP, arr, off, n)
 }
 
 // pack packs n bytes (n <= 32) of a slice into a BV256 (exact, quantifier-free).
@@ -311,19 +311,43 @@ func (ex *Exec) cryptoSpec(name string, arg func(i int) Value, env *SpecEnv) (Va
 	case "hkdf0":
 		// HKDF stream with an empty secret (Noise split): block j of (salt)
 		salt := arg(0).(ArrV)
-		DeclareFun("fp", []string{SByteArr, SBV(64), SBV(64)}, SFP)
-		stream := ufBytes("hkdfbytes", BV(0, 256), App("fp", SFP, salt.A, BV(0, 64), BV(32, 64)), BV(0, 256))
+		DeclareFun("fpr", []string{SByteArr, SBV(64), SBV(64)}, SFP)
+		stream := ufBytes("hkdfbytes", BV(0, 256), App("fpr", SFP, salt.A, BV(0, 64), BV(32, 64)), BV(0, 256))
 		a := CopyArr(ConstArr(SByteArr, BV(0, 8)), BV(0, 64), stream, BVMul(idx(1), BV(32, 64)), BV(32, 64))
 		return ArrV{A: a, N: 32, Elem: types.Typ[types.Uint8]}, true
 	case "sealpt2is":
 		// the plaintext of the i-th Seal were the two bytes b0 b1
 		arr := Store(Store(ConstArr(SByteArr, BV(0, 8)), BV(0, 64), arg(1).(IntV).T), BV(1, 64), arg(2).(IntV).T)
-		DeclareFun("fp", []string{SByteArr, SBV(64), SBV(64)}, SFP)
-		return BoolV{Eq(Select(st.get("ghost|seal.pt", SArr(SBV(64), SFP)), idx(0)), App("fp", SFP, arr, BV(0, 64), BV(2, 64)))}, true
+		DeclareFun("fpr", []string{SByteArr, SBV(64), SBV(64)}, SFP)
+		return BoolV{Eq(Select(st.get("ghost|seal.pt", SArr(SBV(64), SFP)), idx(0)), App("fpr", SFP, arr, BV(0, 64), BV(2, 64)))}, true
+	case "sealad32is", "openad32is":
+		// the associated data of the i-th Seal/Open were the 32 bytes d
+		k := "seal"
+		if name == "openad32is" {
+			k = "open"
+		}
+		d := arg(1).(ArrV)
+		return BoolV{Eq(Select(st.get("ghost|"+k+".ad", SArr(SBV(64), SFP)), idx(0)), canonFP(d.A, BV(0, 64), BV(32, 64), 0))}, true
+	case "sha256cat":
+		// sha256cat(d, data): SHA-256 of the 32 bytes d followed by data (mixHash)
+		d, data := arg(0).(ArrV), arg(1).(SliceV)
+		f := canonFP(d.A, BV(0, 64), BV(32, 64), 0)
+		if !(data.Len.lit && data.Len.val.Sign() == 0) {
+			DeclareFun("fpcat", []string{SFP, SFP}, SFP)
+			f = App("fpcat", SFP, f, ex.fp(st, data))
+		}
+		a := CopyArr(ConstArr(SByteArr, BV(0, 8)), BV(0, 64), ufBytes("sha256", f), BV(0, 64), BV(32, 64))
+		return ArrV{A: a, N: 32, Elem: types.Typ[types.Uint8]}, true
+	case "hkdfx":
+		// hkdfx(ck, input, j): block j of HKDF(secret = input, salt = ck, info = empty) (mixKey)
+		ck, input := arg(0).(ArrV), arg(1).(SliceV)
+		stream := ufBytes("hkdfbytes", ex.fp(st, input), canonFP(ck.A, BV(0, 64), BV(32, 64), 0), BV(0, 256))
+		a := CopyArr(ConstArr(SByteArr, BV(0, 8)), BV(0, 64), stream, BVMul(idx(2), BV(32, 64)), BV(32, 64))
+		return ArrV{A: a, N: 32, Elem: types.Typ[types.Uint8]}, true
 	case "hkdf32":
 		secret, salt := arg(0).(ArrV), arg(1).(ArrV)
-		DeclareFun("fp", []string{SByteArr, SBV(64), SBV(64)}, SFP)
-		stream := ufBytes("hkdfbytes", App("fp", SFP, secret.A, BV(0, 64), BV(32, 64)), App("fp", SFP, salt.A, BV(0, 64), BV(32, 64)), BV(0, 256))
+		DeclareFun("fpr", []string{SByteArr, SBV(64), SBV(64)}, SFP)
+		stream := ufBytes("hkdfbytes", App("fpr", SFP, secret.A, BV(0, 64), BV(32, 64)), App("fpr", SFP, salt.A, BV(0, 64), BV(32, 64)), BV(0, 256))
 		blk := idx(2)
 		a := CopyArr(ConstArr(SByteArr, BV(0, 8)), BV(0, 64), stream, BVMul(blk, BV(32, 64)), BV(32, 64))
 		return ArrV{A: a, N: 32, Elem: types.Typ[types.Uint8]}, true
